@@ -9,6 +9,10 @@ pub mod c07;
 #[cfg(feature = "kit-fs")]
 pub mod c10;
 
+// --- kit-wire (wirekit): C06, C16 ---------------------------------------------------------------
+// --- kit-wire2 (wirekit2): C13, C17, C19 --------------------------------------------------------
+// --- kit-sim (simkit): C01-C05, C08, C09, C11, C12, C14, C15, C18(in-Sim), C20 ------------------
+
 pub enum Action<'a> {
     Check(&'a Options),
     Replay(&'a Path),
@@ -33,6 +37,9 @@ pub fn dispatch(id: &str, a: &Action) -> i32 {
         "C07" => act::<c07::C07>(a),
         #[cfg(feature = "kit-fs")]
         "C10" => act::<c10::C10>(a),
+        // (kit-wire arms)
+        // (kit-wire2 arms)
+        // (kit-sim arms)
         other => {
             eprintln!("harness error: no check registered for property {other} in this build");
             2
